@@ -57,7 +57,7 @@ def random_network(rng, quick=True, force=None):
     ntanks = force.get("ntanks") or rng.choice([1, 1, 2, 2, 3])
     spec = {
         "options": {"hyd": hyd, "duration": hyd * nsteps, "pattern_timestep": rng.choice([hyd, 2 * hyd, 3600]),
-                    "rule_timestep": rng.choice([360, 300, hyd, 77]), "trials": 40},
+                    "rule_timestep": rng.choice([360, 300, hyd, 77, 1, 10, 60, hyd // 4, hyd // 10]), "trials": 40},
         "patterns": {}, "curves": {}, "reservoirs": [], "junctions": [], "tanks": [], "pipes": [], "pumps": [],
         "valves": [], "controls": [],
     }
@@ -335,6 +335,28 @@ def specific_gravity_spec(sg=0.8):
     else:
         s["controls"] = [{"name": "pj", "src": "J", "attr": "pressure", "rel": "gt", "thr": 44.0, "link": "PX", "value": "CLOSED", "prio": 3},
                          {"name": "lt", "src": "T", "attr": "level", "rel": "ge", "thr": 2.3, "link": "PX", "value": "CLOSED", "prio": 3}]
+    return s
+
+
+def rule_step_coincides_spec(rule_step=1):
+    """seeded/C05-11: every crossing instant coincides with a rule timestep (rule_timestep = 1 s, or a small divisor of the step):
+    the presolve branch `sim_time - backtrack == rule_iter * rule_timestep` must cut the step when the control changed something"""
+    s = two_threshold_spec(False, True)
+    s["options"]["rule_timestep"] = rule_step
+    return s
+
+
+def isolated_junction_pressure_spec():
+    """seeded/C05-12: a junction above the hydraulic grade (pressure about -10 m) is cut off by a level control; an isolated junction is
+    stored and REPORTED with pressure 0.0, so `JI pressure > -2.5` holds on the reported state from then on and PX must be closed"""
+    s = priority_presolve_spec(3, "max")
+    s["controls"] = []
+    s["tanks"][0]["max"] = 9.0
+    s["junctions"].append({"name": "JI", "elev": 50.0, "demand": 0.0, "pattern": None})
+    s["pipes"].append({"name": "PI", "start": "J0", "end": "JI", "length": 100.0, "diam": 0.2, "rough": 100.0, "cv": False, "status": "OPEN"})
+    s["controls"] += [
+        {"name": "cut", "src": "T0", "attr": "level", "rel": "ge", "thr": 2.0, "link": "PI", "value": "CLOSED", "prio": 3},
+        {"name": "pj", "src": "JI", "attr": "pressure", "rel": "gt", "thr": -2.5, "link": "PX", "value": "CLOSED", "prio": 3}]
     return s
 
 
